@@ -1475,7 +1475,7 @@ func c16GenFaults(rt *rapid.T) *c16Case {
 		if k := strings.LastIndex(old, "/"); k >= 0 {
 			dir = old[:k+1]
 		}
-		cs.Files[i].Name = dir + strings.Repeat("L", 236) + ".go"
+		cs.Files[i].Name = dir + strings.Repeat("L", 246) + ".go"
 		for j := range names {
 			if names[j] == old {
 				names[j] = cs.Files[i].Name
